@@ -497,6 +497,11 @@ class Executor(ExprMixin):
             return [(st, V.Bool(self.isinstance_(st, args[0], args[1])))]
         if name == 'type':
             return [(st, V.Cls(T.tag_id(self.need_term(args[0]))))]
+        if name == 'callable':
+            a0 = args[0]
+            if not is_term(a0):
+                return [(st, T.TRUE)]             # a static function / class / bound method
+            return [(st, V.Bool(z3.Or(is_('Fn', a0), is_('Cls', a0))))]
         if name == 'abs':
             x = self.need_term(args[0])
             return self.cases(st, [
